@@ -62,6 +62,18 @@ def decide(eng, pc, violated, *, prop, ob_id, res, known: Known, features, env, 
         payload["what"] = what
         path = write_replay(prop, payload)
         ok, text = run_replay(path)
+        if ok is False:
+            # one more witness before giving up: the same violation with every symbolic integer away from the values a
+            # Python process shares as objects (-5..256) - a defect that compares ints by identity only shows there
+            ints = [x for x in (env.get("v") or {}).values() if z3.is_bv(x)] if isinstance(env, dict) else []
+            if ints:
+                far = [z3.Or(x > 256, x < -5) for x in ints]
+                r2, m2 = eng.check(violated, *extra, *far, pc=pc)
+                if r2 == "sat":
+                    payload = make_replay(m2)
+                    payload.update(property=prop, obligation=ob_id, what=what)
+                    path = write_replay(prop, payload)
+                    ok, text = run_replay(path)
         if ok is True:
             res["violations"].append({"replay": path, "what": f"{what} :: {text[-300:]}", "ob": ob_id})
         elif ok is False:
